@@ -22,6 +22,7 @@ type Obligation struct {
 	PC     *pcNode
 	Goal   string
 	Cover  bool // must be SAT (vacuity guard)
+	AllAxioms bool
 	Inputs []modelVar
 	// results
 	Status string // unsat / sat / unknown / timeout
